@@ -127,6 +127,11 @@ fn client_server(d: &Draw, w: &Arc<World>, sandbox: &Sandbox, prop: &'static str
         };
         server_path = srv_dir.join(base);
         client_path = src.clone();
+        if refusal == 0 && d.chance("swarm.upload.overwrites_existing", 1, 5) {
+            // the server already holds a longer (or shorter) file of that name and --overwrite is on
+            srv.overwrite = true;
+            std::fs::write(&server_path, content(d.pick("swarm.upload.old_len", &[len + 900, len / 2, 3 * len + 11]), 93)).unwrap();
+        }
         match refusal {
             1 => srv.read_only = true,
             2 => {
@@ -156,6 +161,10 @@ fn client_server(d: &Draw, w: &Arc<World>, sandbox: &Sandbox, prop: &'static str
         };
         server_path = on_server;
         client_path = cli_dir.join(base);
+        if refusal == 0 && d.chance("swarm.download.overwrites_existing", 1, 5) {
+            // the client's receive directory already holds an older, longer copy
+            std::fs::write(&client_path, content(d.pick("swarm.download.old_len", &[len + 900, len / 2, 3 * len + 11]), 94)).unwrap();
+        }
     }
     let plan = ClientPlan { upload, v6: srv.v6, port: srv.port, blksize: b, windowsize: wsz, timeout_s: tmo, file_arg: file_arg.clone(), receive_dir: cli_dir.clone(), keep_on_error: false };
     let desc = format!(
@@ -164,8 +173,16 @@ fn client_server(d: &Draw, w: &Arc<World>, sandbox: &Sandbox, prop: &'static str
         if upload { "upload" } else { "download" },
         file_arg.replace(&*sandbox.root.to_string_lossy(), "$SB")
     );
+    let mut bystander = None;
+    if d.chance("swarm.bystander", 1, 4) {
+        let (bp, _spec) = crate::scen::add_bystander(d, w, &srv, &srv_dir);
+        bystander = Some(bp);
+    }
     boot_server(w, &srv).expect("server config");
     let result = spawn_client(w, &plan);
+    if let Some((bp, at)) = bystander {
+        w.start_peer_at(bp, at + 10 * MS);
+    }
     CsSetup { desc: desc.clone(), mon: CsMon { upload, expect_refusal: refusal != 0, content: data, server_path, client_path, client_dir: cli_dir, result, probes: Default::default(), desc } }
 }
 
@@ -233,8 +250,13 @@ pub fn dupmode(tier: Tier, w: &Arc<World>) -> Scn {
         oc.w = wsz;
         oc.opts.push(("blksize".into(), b.to_string()));
         oc.opts.push(("windowsize".into(), wsz.to_string()));
+        if d.chance("swarm.opt.timeout", 1, 2) {
+            // with N = 254 a window of 4 takes longer to emit than a 1 s timeout
+            oc.tmo_s = 1;
+            oc.opts.push(("timeout".into(), "1".into()));
+        }
     }
-    let max_blocks = if n > 3 { 6 } else { 40 };
+    let max_blocks = if n > 3 { 14 } else { 40 };
     let len = draw_len(&d, oc.b, oc.w, max_blocks, 1 << 18);
     let data = Arc::new(content(len, 9));
     let path = dir.join("data.bin");
@@ -246,6 +268,7 @@ pub fn dupmode(tier: Tier, w: &Arc<World>) -> Scn {
     xc.eager_reack = !d.chance("swarm.reader.lazy_reack", 1, 4);
     xc.per_block_ack = d.chance("swarm.reader.per_block_ack", 1, 4);
     xc.resend_request = false;
+    xc.timeout_ns = oc.tmo_s * SEC * 3;
     let mut fc = FaultCfg::default();
     if d.chance("swarm.net_dup", 1, 3) {
         fc.fate_w = [20, 0, 3, 1, 0, 0];
@@ -259,7 +282,7 @@ pub fn dupmode(tier: Tier, w: &Arc<World>) -> Scn {
     let (peer, client) = if upload { w.add_peer(Box::new(Writer::new(xc, data.to_vec())), false, 0) } else { w.add_peer(Box::new(Reader::new(xc)), false, 0) };
     let spec = XferSpec { client, peer, kind, content: data, path, conformant: true, dally: true, timeout_ratio: 1 };
     w.add_monitor(Box::new(DupMon::new(n)));
-    w.add_monitor(Box::new(XferMon::new("C16", Rules { c01: true, c02: true, c04: true, ..Default::default() }, vec![spec], n)));
+    w.add_monitor(Box::new(XferMon::new("C16", Rules { c01: true, c02: true, c04: true, c08: true, ..Default::default() }, vec![spec], n)));
     boot_server(w, &srv).expect("server config");
     w.start_peer_at(peer, 10 * MS);
     Scn { sandbox, desc, step_cap: 3_000_000, time_cap: 100_000_000 * SEC, faultfree }
@@ -334,7 +357,7 @@ pub fn cleanup(tier: Tier, w: &Arc<World>) -> Scn {
                         w.lock().icmp = true;
                     }
                 }
-                1 => xc.script.push((step, Adv::Error(d.range("swarm.c13.errcode", 8) as u16, true))),
+                1 => xc.script.push((step, Adv::ErrorText(d.range("swarm.c13.errcode", 8) as u16, d.range("swarm.c13.errtext", 6) as u8))),
                 _ => {
                     fc.disk_w = 150;
                     fc.budget = 1;
